@@ -728,6 +728,9 @@ def gen_prog(pid, rng, kind, length, force=None):
         p.tags.add("cap")
     for s in g.spellings:
         p.tags.add("sp:" + s)
+    depths = [1 + sum(1 for m in b[3] if m.deferred) for b in p.branches]
+    if len(depths) >= 2 and len(set(depths)) == 1:
+        p.tags.add("eqdepth")
     return p
 
 
@@ -1191,6 +1194,45 @@ def build_corpus(tier, seed):
             if keep(cand):
                 progs[-1].tags.add("sp:multi_step_in_callers_loop")
                 break
+    # (a6) thread kinds: a step opened by a deferred operator that takes no operand (`~|n>`, `~=>[] T`, `~^^>`) behind lazy
+    #      iterator closures of the step before — they run in that later step, on the branch's own thread
+    for kind in ("join_spawn", "spawn", "join_spawn"):
+        for opener in ("enumerate", "collect", "flatten"):
+            p6 = Prog()
+            p6.id = 0
+            p6.kind = kind
+            g6 = G(rng, "sync")
+            ok6 = True
+            for b in range(2):
+                lo = g6.next_id
+                fn, nshapes = SRC["I"]
+                sid = g6.nid()
+                p6.srcs.append((sid, nshapes))
+                ts = g6.transitions("I", False)
+                first = g6.mk(next(t for t in ts if t[4] == "map"))
+                if opener == "flatten":
+                    first = g6.mk(next(t for t in ts if t[0] == "map" and t[2] == "II"))
+                    op2 = g6.mk(next(t for t in g6.transitions("II", False) if t[0] == "flatten"), deferred=True)
+                elif opener == "enumerate":
+                    op2 = g6.mk(next(t for t in ts if t[0] == "enumerate"), deferred=True)
+                else:
+                    op2 = g6.mk(next(t for t in ts if t[4] == "collect/typed"), deferred=True)
+                ms = [first, op2]
+                target = "O" if kind.startswith("try_") else None
+                fin = g6.finish(op2.to, target)
+                if fin is None:
+                    ok6 = False
+                    break
+                ms += fin
+                p6.branches.append(("%s(%d)" % (fn, sid), 0, "I", ms, (lo, g6.next_id)))
+            if not ok6:
+                continue
+            p6.max_id = g6.next_id + 1
+            for (_, _, _, ms, _) in p6.branches:
+                for mm in ms:
+                    p6.tags.add("op:" + mm.tag)
+            p6.tags |= {"forced", "eqdepth", "sp:step_opened_by_operand_less_operator"}
+            keep(p6)
     # (a4) capture grids: three branches x three positions x two steps with a block operand on every action
     for kind in ("join", "join_spawn", "spawn", "join"):
         for world, ops in (("R", ("or", "or_else", "map_err")), ("R", ("map", "and_then", "or", "map_err")), ("O", ("map", "and_then", "filter", "or", "or_else")),
